@@ -69,9 +69,9 @@ impl Default for GraphNode {
 }
 
 impl GraphNode {
-    fn new(typ: Type, deps: Dependencies) -> Self {
+    fn new(typ: Option<Type>, deps: Dependencies) -> Self {
         GraphNode {
-            typ: Some(typ),
+            typ,
             deps,
             rdeps: HashSet::new(),
         }
@@ -89,7 +89,23 @@ impl DepsGraph {
         self.insert(Dependency::Asset(asset_key), deps, typ)
     }
 
+    /// Adds an asset that was loaded with `load_owned`: it is part of the
+    /// graph (other assets may depend on it) but it is not stored in the
+    /// cache, so it must not be reloaded itself.
+    pub fn insert_owned_asset(&mut self, asset_key: OwnedKey, deps: Dependencies) {
+        let asset_key = Dependency::Asset(asset_key);
+        // Keep reloading the asset if it is also stored in the cache
+        let cached = matches!(self.0.get(&asset_key), Some(node) if node.typ.is_some());
+        if !cached {
+            self.insert_node(asset_key, deps, None);
+        }
+    }
+
     pub fn insert(&mut self, asset_key: Dependency, deps: Dependencies, typ: Type) {
+        self.insert_node(asset_key, deps, Some(typ))
+    }
+
+    fn insert_node(&mut self, asset_key: Dependency, deps: Dependencies, typ: Option<Type>) {
         for key in deps.iter() {
             let entry = self.0.entry(key.clone()).or_default();
             entry.rdeps.insert(asset_key.clone());
@@ -103,7 +119,7 @@ impl DepsGraph {
                 let entry = entry.into_mut();
                 let removed: Vec<_> = entry.deps.difference(&deps).cloned().collect();
                 entry.deps = deps;
-                entry.typ = Some(typ);
+                entry.typ = typ;
 
                 for key in removed {
                     let removed = match self.0.get_mut(&key) {
